@@ -1532,7 +1532,7 @@ class Server:
         if rest:
             code, info = "522", ["custom protocols support not implemented"]
             connection.response(code, info)
-            return False
+            return True
         if not connection.future.passive_server.done():
             coro = self._start_passive_server(connection, handler)
             try:
